@@ -478,6 +478,11 @@ def jobs(tier):
                 continue
             for direction in ('forward', 'backward'):
                 J.append(dict(harness=('c13', 'h_circuit_ops'), params=dict(N=N, prog=prog, config=config, direction=direction), timeout_s=300, max_paths=4000, cost=20))
+    # gates whose qubit tuple is not ascending and not a consecutive run (the mask is order-blind in both packages)
+    for N, q in ((3, [2, 0]), (4, [0, 3, 2]), (4, [1, 0, 3]), (4, [3, 1])) + (((4, [2, 3, 0]), (4, [3, 2, 1])) if tier == 'thorough' else ()):
+        for kind in ('gen', 'fmap') if len(q) < 3 else ('gen',):
+            for direction in ('forward', 'backward'):
+                J.append(dict(harness=('c13', 'h_circuit_ops'), params=dict(N=N, prog=[[kind, q]], config='plain', direction=direction), timeout_s=300, max_paths=4000, cost=20))
     # the layer-packing lemma on the torch circuit classes (same structural obligations as C09 on pyclifford)
     for N in (2, 3):
         for n_g in (1, 2, 3, 4):
